@@ -16,7 +16,7 @@ Lemma fetch_audio np sc :
   expected_audio sc =
   match fst (fetch np sc) with
   | MCloseAcqH => []
-  | MPlayAcq a _ => a :: expected_audio (snd (fetch np sc))
+  | MPlayAcq a _ _ => a :: expected_audio (snd (fetch np sc))
   | _ => expected_audio (snd (fetch np sc))
   end.
 Proof.
